@@ -313,7 +313,26 @@ let spec_history (n : int) (lines : string list) : unit =
               let ok = preb n_edges cap s o in
               if not ok then begin
                 Hashtbl.remove ss h;
-                Printf.printf "%s -> ? | pre=0\n" opname
+                (* which clause of the limits fails (hand-written classification, used by the C07 oracle only):
+                   the three overruns the property says must stop with a panic, or something else *)
+                let capi = int_of_nat cap in
+                let big v = int_of_nat v >= capi in
+                let why =
+                  match o with
+                  | OAdd v | OPut (v, _) | OData v | OKid (v, _) | OKids v -> if big v then "limit:id" else "precondition"
+                  | OBind (v1, v2, a) ->
+                      if big v1 || big v2 then "limit:id"
+                      else if not (s.s_present v1 && s.s_present v2) || int_of_nat v1 = int_of_nat v2 then "precondition"
+                      else
+                        let e = s.s_edges v1 in
+                        if (not (List.exists (fun (l, _) -> label_eqb l a) e)) && List.length e >= n then "limit:labels"
+                        else (match s.s_grp v1, s.s_grp v2 with
+                              | None, None -> "limit:groups"
+                              | _ -> "limit:members")
+                  | ONext -> "allocator"
+                  | OKeys -> "?"
+                in
+                Printf.printf "%s -> ? | pre=0 %s\n" opname why
               end else begin
                 let s1, r = sstep s o in
                 let s1 = compact s1 in
